@@ -240,6 +240,17 @@ def main(argv=None):
     if not argv:
         print("usage: check <Cxx> [--tier quick|thorough] [--replay path]")
         return 2
+    if argv[0] == "--selfcheck":
+        # setup_cmd: the framework needs no build; verify that every module imports and the findings file parses
+        import glob
+        n = 0
+        for f in sorted(glob.glob(os.path.join(VERIF, "sa", "props", "C*.py"))):
+            importlib.import_module("sa.props." + os.path.basename(f)[:-3])
+            n += 1
+        load_known()
+        os.makedirs(EVIDENCE_DIR, exist_ok=True)
+        print(f"selfcheck ok: {n} property modules import, python {sys.version.split()[0]}")
+        return 0
     pid = argv[0]
     tier = os.environ.get("VERIF_TIER", "quick") or "quick"
     replay = None
